@@ -43,6 +43,10 @@ var c13Fixed = []struct {
 	accept     bool
 }{
 	{"empty leaf", `leaf l { type empty; }`, true},
+	{"leaf of type bits", `leaf l { type bits { bit a; bit b; } }`, true},
+	{"typedef over bits", `typedef flags { type bits { bit a; bit b; } } leaf l { type flags; }`, true},
+	{"typedef over a typedef over bits", `typedef f0 { type bits { bit a; } } typedef f1 { type f0; } leaf l { type f1; }`, true},
+	{"range on a typedef over bits", `typedef flags { type bits { bit a; bit b; } } leaf l { type flags { range "1..2"; } }`, false},
 	{"default on a leaf of type empty", `leaf l { type empty; default ""; }`, false},
 	{"default on a typedef of type empty", `typedef e { type empty; default ""; } leaf l { type e; }`, false},
 	{"decimal64 typedef narrowed by range", `typedef d { type decimal64 { fraction-digits 2; } } leaf l { type d { range "1..2"; } }`, true},
